@@ -45,7 +45,7 @@ def build_types(vi):
     return m
 
 
-LINK_SHAPES = ['one_many', 'one_one', 'refl', 'assoc', 'composite', 'subtype', 'two_ids', 'one_phrase']
+LINK_SHAPES = ['one_many', 'one_one', 'refl', 'assoc', 'composite', 'subtype', 'two_ids', 'one_phrase', 'null_ids']
 
 
 def link_space(shape):
@@ -65,6 +65,8 @@ def link_space(shape):
         return [(x, y) for x in range(-1, 2) for y in range(-1, 2) if x < 0 or x != y]
     if shape == 'two_ids':
         return list(itertools.product(range(-1, 2), repeat=2))        # B -> a? via Id, C -> a? via Code
+    if shape == 'null_ids':
+        return list(itertools.product(range(-1, 1), repeat=4))        # B0 B1 -> none | the non-null A;  T0 T1 -> none | the non-empty S
     if shape == 'one_phrase':
         return [c for c in itertools.product(range(-1, 3), repeat=3)
                 if len([x for x in c if x >= 0]) == len(set(x for x in c if x >= 0))]
@@ -132,6 +134,23 @@ def build_links(shape, st):
         N = [m.new('N') for _ in range(3)]
         for n, sidx in zip(N, st):
             if sidx >= 0: xtuml.relate(n, N[sidx], 6, '')
+    elif shape == 'null_ids':
+        # referred classes that also hold an instance whose identifier IS the null value (id 0, empty string): an unrelated
+        # referring instance (its referential attribute is written as that same null value) must stay unrelated
+        m.define_class('A', [('Id', 'unique_id'), ('Tag', 'integer')])
+        m.define_class('B', [('Id', 'unique_id'), ('A_Id', 'unique_id')])
+        m.define_class('S', [('Name', 'string'), ('Tag', 'integer')])
+        m.define_class('T', [('Id', 'unique_id'), ('S_Name', 'string')])
+        m.define_association(1, 'B', ['A_Id'], True, True, '', 'A', ['Id'], False, True, '').formalize()
+        m.define_association(2, 'T', ['S_Name'], True, True, '', 'S', ['Name'], False, True, '').formalize()
+        A = [m.new('A', Id=7, Tag=1), m.new('A', Id=0, Tag=2)]
+        S = [m.new('S', Name='s', Tag=1), m.new('S', Name='', Tag=2)]
+        B = [m.new('B') for _ in range(2)]
+        T = [m.new('T') for _ in range(2)]
+        for b, a in zip(B, st[:2]):
+            if a >= 0: xtuml.relate(b, A[0], 1)
+        for t_, s_ in zip(T, st[2:]):
+            if s_ >= 0: xtuml.relate(t_, S[0], 2)
     elif shape == 'subtype':
         m.define_class('P', [('Id', 'unique_id')]); m.define_class('X', [('Id', 'unique_id'), ('v', 'integer')])
         m.define_class('Y', [('Id', 'unique_id')])
